@@ -467,6 +467,13 @@ func vU16b(v uint16) []byte { return []byte{byte(v >> 8), byte(v)} }
 func vRefRData(rr RR) []byte {
 	switch d := rr.Data.(type) {
 	case net.IP:
+		// an A record holds the 4-byte form of the address, an AAAA record the 16-byte form, however the caller spelled it
+		if rr.Type == 1 && d.To4() != nil {
+			return append([]byte{}, d.To4()...)
+		}
+		if rr.Type == 28 && len(d) == 4 {
+			return append([]byte{}, d.To16()...)
+		}
 		return append([]byte{}, d...)
 	case string:
 		return vRefName(d, -1)
@@ -494,6 +501,9 @@ func vRefRData(rr RR) []byte {
 		if len(d.IPv4Hint) > 0 {
 			var l []byte
 			for _, ip := range d.IPv4Hint {
+				if ip.To4() != nil {
+					ip = ip.To4()
+				}
 				l = vCat(l, ip)
 			}
 			out = vCat(out, vU16b(4), vU16b(uint16(len(l))), l)
@@ -570,6 +580,10 @@ func verifC13Exact() {
 		switch vInt(0, 4) {
 		case 0:
 			rr.Type, rr.Data = 1, net.IP(vBytes(4))
+			if vBool() {
+				b := vBytes(4)
+				rr.Data = net.IPv4(b[0], b[1], b[2], b[3]) // the 16-byte spelling net.ParseIP and net.IPv4 return
+			}
 		case 1:
 			rr.Type, rr.Data = 28, net.IP(vBytes(16))
 		case 2:
@@ -590,6 +604,10 @@ func verifC13Exact() {
 			}
 			if vBool() {
 				h.IPv4Hint = vIPs(2, 4)
+				if vBool() {
+					b := vBytes(4)
+					h.IPv4Hint[1] = net.IPv4(b[0], b[1], b[2], b[3])
+				}
 				h.IPv6Hint = vIPs(1+vTier(), 16)
 			}
 			if vBool() {
